@@ -1,12 +1,12 @@
 TUS = ['src/base/QXmppRosterIq.cpp', 'src/base/QXmppIq.cpp', 'src/base/QXmppStanza.cpp', 'src/base/QXmppUtils.cpp',
-       'src/base/QXmppPresence.cpp', 'src/client/QXmppClientExtension.cpp']
+       'src/base/QXmppPresence.cpp', 'src/base/QXmppMucIq.cpp', 'src/client/QXmppClientExtension.cpp']
 def I(name, **kw):
     d = dict(name=name, entry='h_' + name, unwind=7, timeout_s=150, mem_gb=6, bound=''); d.update(kw); return d
 SPEC = dict(
     property='C12',
     groups=[
         dict(name='roster', harness='h.cpp', tus=TUS, models=['qt_core.c', 'qt_list.c', 'qt_dom.c', 'models.c'], shadow_task=True,
-             instances=[I(n) for n in ['push_unauth_n1', 'push_unauth_n2', 'push_auth_nofrom_n2', 'push_auth_from_n2', 'push_auth_from_n1', 'push_auth_from_n0']]),
+             instances=[I(n) for n in ['push_unauth_n1', 'push_unauth_n2', 'push_auth_nofrom_n2', 'push_auth_from_n2', 'push_auth_from_n1', 'push_auth_from_n0', 'connected', 'connected_result', 'connected_error', 'disconnected', 'presence']]),
     ],
     bounds=[], assumptions=[], outside=[],
 )
